@@ -351,7 +351,9 @@ impl RtpsReaderProxy {
                     RtpsMessageWrite::from_submessages(&[&gap_submessage], guid_prefix);
                 message_writer.write_message(rtps_message.buffer(), self.unicast_locator_list());
 
-                self.set_highest_sent_seq_num(next_unsent_change_seq_num);
+                // Only the gap has been sent: the change behind it is sent by the next iteration
+                self.set_highest_sent_seq_num(gap_end_sequence_number);
+                continue;
             } else if let Some(cache_change) = changes.iter().find(|cc| {
                 // (what was written before a volatile reader was matched is not relevant for it)
                 cc.sequence_number == next_unsent_change_seq_num
@@ -450,7 +452,11 @@ impl RtpsReaderProxy {
                         &[&info_dst, &gap_submessage, &heartbeat_submessage],
                         guid_prefix,
                     );
-                    message_writer.write_message(rtps_message.buffer(), self.unicast_locator_list())
+                    message_writer.write_message(rtps_message.buffer(), self.unicast_locator_list());
+
+                    // Only the gap has been sent: the change behind it is sent by the next iteration
+                    self.set_highest_sent_seq_num(gap_end_sequence_number);
+                    continue;
                 } else {
                     let seq_num_min = changes.iter().map(|cc| cc.sequence_number).min();
                     let seq_num_max = changes.iter().map(|cc| cc.sequence_number).max();
